@@ -79,6 +79,9 @@ def check_weaver(ctx, wm: WeaverModel):
         and veq(r.kw('s'), tf.params.get('s'))
     ctx.check(ok, 'C16.2', 'to_function returns spline_smooth(self.x, self.y, s=s) on every path (the current series, nothing cached)', show(r, 300),
               tf.fi.loc(), tf.fi.qualname, 'tf-value')
+    touched = [e for m_ in (tf, mf) for e in m_.ev.events if e.kind == 'field' and not isinstance(e.data.get('obj'), Obj)]
+    ctx.check(not touched, 'C16.2', 'the fitted spline object is used as built (no attribute of it is re-assigned: extrapolation mode, coefficients, knots)',
+              f"{[(e.data.get('field'), e.loc()) for e in touched]}", tf.fi.loc(), tf.fi.qualname, 'tf-untouched')
     a = tf.fi.node.args
     params = tf.fi.params()
     d = dict(zip(params[len(params) - len(a.defaults):], a.defaults)).get('s')
@@ -90,6 +93,10 @@ def run(ctx):
     wm = model(ctx)
     check_spline(ctx)
     check_weaver(ctx, wm)
+    from .common import dt_function, dt_weaver, DT_RULE
+    ctx.rule('C16.4', DT_RULE)
+    dt_function(ctx, 'C16.4', SMOOTH, {'x': 'x', 'y': 'x'})
+    dt_weaver(ctx, 'C16.4', wm, ['smooth', 'to_function'])
     ctx.rule('C01.1', 'library references of the smoothing code exist and bind')
     api.check_api(ctx, 'C01.1', [ctx.prog.func(SMOOTH)], floor=2)
     ctx.notes.append('NOT DECIDED: everything FITPACK computes (residual bound, identity for s = 0 and for affine data).')
